@@ -45,7 +45,16 @@ impl Read for HostileReader<'_> {
         }
         if let Some(f) = self.fail_at {
             if self.pos >= f {
-                return Err(Error::new(ErrorKind::Other, "injected I/O error"));
+                // the kinds a real source fails with for good (payload-less and with a message); never a kind that the
+                // std contract asks the caller to retry forever
+                return Err(match f % 6 {
+                    0 => Error::new(ErrorKind::Other, "injected I/O error"),
+                    1 => Error::from(ErrorKind::WouldBlock),
+                    2 => Error::from(ErrorKind::TimedOut),
+                    3 => Error::from(ErrorKind::BrokenPipe),
+                    4 => Error::from(ErrorKind::UnexpectedEof),
+                    _ => Error::from_raw_os_error(5),
+                });
             }
         }
         if buf.is_empty() {
